@@ -66,8 +66,9 @@ RULE = ("structural tie: the top-level instruction list of BlackBoxInitialize(..
         "qubits ; UCRY(theta) ; UCRZ(phi) on [flag, data]; contract: cos(theta_k/2) = |a_k| in [0,1] and phi_k = -2 arg a_k (premises of "
         "C19_oracle_flag), I_t = diag(-1,1) on the flag, I_s = I - 2|0..0><0..0|; direct evaluation "
         "(harness/props/c19_eval.py): flag-0 branch vs sin((2r+1)theta) a. distinct = distinct vectors; non-trivial = n >= 2")
-ASSUMPTIONS = ["Qiskit's UCRYGate/UCRZGate are the ideal multiplexers with target = first qubit and control index = value of the remaining qubits (validated numerically per run)",
-               "the reduction to the two-dimensional recurrence is proved at the matrix level (C19_round_on_span, C19_reflection) under the premises 'U unitary, U|0> = sin t|g> + cos t|b> with g, b orthonormal, P g = g, P b = 0', which are evaluated numerically, not derived from the gate list"]
+ASSUMPTIONS = ["Qiskit's UCRYGate/UCRZGate are the ideal multiplexers with target = first qubit and control index = value of the remaining qubits, and h is the Hadamard matrix (validated numerically per run)",
+               "the theorems are over the reals: a_k of the theorem is cos(theta_k/2) e^{-i phi_k/2} for the angle tables the code computed; that this equals the input amplitude (theta_k = 2 acos|a_k|, phi_k = -2 arg a_k) is the angle contract, checked numerically at 1e-9 on every run; r = floor(pi sqrt(N)/4) is computed in binary64 by the harness",
+               "the inverse multiplexers inside U^-1 are compared with the negated-angle multiplexers as matrices for n <= 4 and by their (identical) angle tables above"]
 TRUSTED = ["top-level instruction list of the definition"]
 
 
